@@ -65,8 +65,9 @@ CbRecs(ev) == { ev.cb[i] : i \in DOMAIN ev.cb }
 CbEsis(ev) == { ev.cb[i][1] : i \in DOMAIN ev.cb }
 
 (* callbacks allowed/required during a call that moves Avail from A0 to A1,  *)
-(* where `submitted' are source symbols the application handed over in this  *)
-(* very call and `maybe' those for which either outcome is acceptable        *)
+(* where `submitted' are the source symbols the application has handed over  *)
+(* so far (this call included) and `maybe' those for which either outcome    *)
+(* is acceptable                                                             *)
 CbCheck(s, ev, sid, A0, A1, submitted, maybe) ==
     LET must == IF s.cbMode = "none" THEN {} ELSE (A1 \ A0) \ submitted
         may  == IF s.cbMode = "none" THEN {} ELSE must \cup (maybe \cap A1)
@@ -137,7 +138,7 @@ DoRecv(s0, ev, sid) ==
     IN  [ s |-> [s1 EXCEPT !.cbs = s0.cbs \cup CbEsis(ev), !.everComplete = s0.everComplete \/ Complete(s1)],
           fails |-> F(s0.phase = "configured" /\ s0.role = "dec" /\ ~s0.finished, "INFRA", "driver-protocol")
                     \cup F(ev.st = OK, "C10,C11", "recv-status")
-                    \cup CbCheck(s0, ev, sid, Avail(s0), Avail(s1), sub, {})
+                    \cup CbCheck(s0, ev, sid, Avail(s0), Avail(s1), s1.rcvd \cap Src(s0), {})
                     \cup Common(ev) ]
 
 SetAvailNext(s0, S) ==
@@ -158,7 +159,7 @@ DoSetAvail(s0, ev, sid) ==
           fails |-> F(s0.phase = "configured" /\ s0.role = "dec" /\ ~s0.finished, "INFRA", "driver-protocol")
                     \cup F(ev.st = OK, "C10", "setavail-status")
                     \cup F(ev.tab_ok = 1, "C07", "setavail-table-modified")
-                    \cup CbCheck(s0, ev, sid, Avail(s0), Avail(s1), S \cap Src(s0), s1.appMaybe)
+                    \cup CbCheck(s0, ev, sid, Avail(s0), Avail(s1), s1.rcvd \cap Src(s0), s1.appMaybe)
                     \cup Common(ev) ]
 
 (* ---- decoder: finish ---------------------------------------------------- *)
@@ -183,7 +184,7 @@ DoFinish(s0, ev, sid) ==
                     \cup F(c1 => ev.st = OK, IF Complete(s0) THEN "C10" ELSE tagOk,
                            IF Complete(s0) THEN "finish-status-when-already-complete" ELSE "finish-status-not-ok-when-recoverable")
                     \cup F(~c1 => ev.st = FAILURE, tagOk, "finish-status-not-failure-when-unrecoverable")
-                    \cup CbCheck(s0, ev, sid, Avail(s0), Avail(s1), {}, {})
+                    \cup CbCheck(s0, ev, sid, Avail(s0), Avail(s1), s1.rcvd \cap Src(s0), {})
                     \cup Common(ev) ]
 
 (* ---- decoder: queries --------------------------------------------------- *)
